@@ -1,5 +1,6 @@
 (* C13 judged on implementation traces: what every instrumented condition / modifier was shown. *)
-From BEI Require Export Check.App.
+From BEI Require Export Check.App Check.C18a.
+From BEI Require Import Spec.Events.
 Open Scope Z_scope.
 
 Definition got_of (c e : Z) (o : out) : bool :=
@@ -43,6 +44,34 @@ Definition judge_instance (c e : Z) (bs : list abind) (before o : out) : list (Z
           end
       end) (all_ids b))) (combine (map Z.of_nat (seq 0 (length bs))) bs)).
 
+(* BlockBy, judged by its effect (action-level blockers, as in this profile): while a referenced action is shown as
+   Fired a plain blocker forces None, an events-only one withholds exactly the events; and an action whose
+   events-only blockers are all quiet delivers the transition table of its polled states *)
+Definition blockby_results (events_only : bool) (b : abind) (lg : list logitem) : list state :=
+  flat_map (fun ic => match snd ic with
+                      | CBlockBy _ eo => if Bool.eqb eo events_only then
+                                           match find_cond (fst ic) lg with Some (_, r, _) => [r] | None => [] end else []
+                      | _ => []
+                      end) (ab_conds b).
+Definition other_ev_blockers (b : abind) : bool :=
+  existsb (fun ic => match snd ic with CBlockBy _ _ => false | c => match cond_kind c with KBlocker true => true | _ => false end end) (ab_conds b) ||
+  existsb (fun ib => existsb (fun ic => match cond_kind (snd ic) with KBlocker true => true | _ => false end) (ib_conds ib)) (ab_inputs b).
+Definition judge_blockers (c e : Z) (bs : list abind) (before o : out) : list (Z * bool) :=
+  flat_map (fun b =>
+    let a := ab_id b in
+    match snap_of_entry c e a (x_snaps o) with
+    | Some s =>
+        let p := match snap_of_entry c e a (x_snaps before) with Some s0 => sn_state s0 | None => SNone end in
+        let evs := map e_kind (events_for e a (x_main o)) in
+        let ev_blocked := existsb (fun r => state_eqb r SNone) (blockby_results true b (x_log o)) in
+        let blocked := existsb (fun r => state_eqb r SNone) (blockby_results false b (x_log o)) in
+        (11, implb blocked (state_eqb (sn_state s) SNone)) ::
+        (if ev_blocked then [(7, match evs with [] => true | _ => false end)]
+         else if other_ev_blockers b then []
+         else [(7, list_eqb evkind_eqb evs (table p (sn_state s)))])
+    | None => []
+    end) bs.
+
 (* evaluation order = order of first binding: the first logged id of each action appears in that order *)
 Fixpoint first_index (id : Z) (l : list Z) (i : Z) : option Z :=
   match l with [] => None | x :: r => if Z.eqb x id then Some i else first_index id r (i + 1) end.
@@ -61,16 +90,23 @@ Fixpoint judge_steps (sc : scenario) (before : out) (steps : list step) (outs : 
   | SFrame f :: steps', o :: outs' =>
       (8, negb (x_panicked o)) ::
       flat_map (fun x => let '(c, e, spec) := x in
-                         if got_of c e before then (5, order_ok (merged_actions spec) o) :: judge_instance c e (merged_actions spec) before o else [])
+                         if got_of c e before then (5, order_ok (merged_actions spec) o) :: judge_instance c e (merged_actions spec) before o ++ judge_blockers c e (merged_actions spec) before o else [])
                (s_cfg sc) ++ judge_steps sc o steps' outs'
   | SOp _ :: steps', o :: outs' => (8, negb (x_panicked o)) :: judge_steps sc o steps' outs'
   | [], [] => []
   | _, _ => [(9, false)]
   end.
+(* AccumulateBy: the law of C18 (running sum exactly while the referenced action is shown as Fired, the plain input
+   otherwise, nothing for an absent action), with the memory kept across frames by Check.C18a *)
+Definition accumulate_ok (sc : scenario) (outs : list out) : bool :=
+  let ms := filter (fun x => match snd x with MAccumulate _ _ => true | _ => false end) (all_mods sc) in
+  Z.eqb (first_fail (judge_steps_a ms (map (fun _ => [0; 0; 0]%Q) ms) (s_steps sc) outs)) 0.
 Definition ok (p : scenario * trace_t) : Z :=
   match p with
-  | (sc, trace outs) => first_fail (judge_steps sc (mkOut [] [] [] [] [] [] [] true true false) (s_steps sc) outs)
-  | (_, panic) => 10
+  | (sc, trace outs) =>
+      let r := first_fail (judge_steps sc (mkOut [] [] [] [] [] [] [] true true false) (s_steps sc) outs) in
+      if negb (Z.eqb r 0) then r else if accumulate_ok sc outs then 0 else 6
+  | (_, App.panic) => 10
   end.
 Definition bad_agree := bad agree_full.
 Definition bad_ok := badc ok.
